@@ -1165,6 +1165,21 @@ type InputFile struct {
 	Reader io.Reader
 }
 
+// inputReader remembers the first error (other than io.EOF) of the reader it
+// wraps: json.Decoder.More does not report read errors
+type inputReader struct {
+	reader io.Reader
+	err    error
+}
+
+func (r *inputReader) Read(p []byte) (int, error) {
+	n, err := r.reader.Read(p)
+	if err != nil && err != io.EOF && r.err == nil {
+		r.err = err
+	}
+	return n, err
+}
+
 func EvalProgram(progSrc string, files []InputFile, rootSelectors []string, stdout io.Writer, fuzzing bool) (*Evaluator, error) {
 	lex := NewLexer(progSrc)
 	parser := NewParser(&lex)
@@ -1193,7 +1208,8 @@ func EvalProgram(progSrc string, files []InputFile, rootSelectors []string, stdo
 	// for each file, run the pattern rules
 	for _, file := range files {
 		// for each json value
-		d := json.NewDecoder(file.Reader)
+		reader := &inputReader{reader: file.Reader}
+		d := json.NewDecoder(reader)
 		for d.More() {
 			var rootValue any
 			err := d.Decode(&rootValue)
@@ -1266,7 +1282,11 @@ func EvalProgram(progSrc string, files []InputFile, rootSelectors []string, stdo
 		}
 
 		// More is also false at a stray ']' or '}' and when the reader fails:
-		// only a clean end of input may end the stream
+		// only a clean end of input may end the stream. (a reader error need not
+		// persist, so it is remembered by the reader wrapper, not asked for again)
+		if reader.err != nil {
+			return &ev, JsonError{reader.err.Error(), file.Name}
+		}
 		if _, err := d.Token(); err != nil && err != io.EOF {
 			return &ev, JsonError{err.Error(), file.Name}
 		}
